@@ -927,6 +927,11 @@ def isHandler : Cb → Bool
   | .handle | .sup => true
   | _ => false
 
+/-- A callback is open. -/
+def Stage.isOpen : Stage → Bool
+  | .preOpen | .psOpen | .hOpen _ | .stopOpen => true
+  | _ => false
+
 /-- The lifecycle automaton. -/
 def next (s : St) : Ev → Except String St
   | .enter cb _ =>
@@ -964,6 +969,17 @@ def next (s : St) : Ev → Except String St
   | .drainRet true => .ok { s with stopReq := true }
   | .killRet _ true => .ok { s with killed := true }
   | .treeKill => .ok { s with killed := true }     -- a supervisor's `terminate()` is an accepted kill too
+  -- the end of the actor's task / of its start-up ends the lifecycle: no callback may follow
+  -- (an open callback is first `cancelled`, which ends the lifecycle itself)
+  | .aborted => .ok (if s.stage.isOpen then s else { s with stage := .dead })
+  | .dropped => .ok (if s.stage.isOpen then s else { s with stage := .dead })
+  | .join _ => .ok { s with stage := .dead }
+  | .spawnRet r =>
+    match r with
+    | .ok | .registered => .ok s
+    -- (a thread-local spawn whose link is refused fails before a cell is visible: the slot is untouched)
+    | .nolink => .ok (if s.stage = .init then s else { s with stage := .dead })
+    | _ => .ok { s with stage := .dead }
   | _ => .ok s
 
 def ok (tr : List Ev) : Bool := (accepts next {} tr).isOk
